@@ -3,6 +3,7 @@
   Reads operations from stdin, runs them on AL.Impl, prints one line per operation.
 -/
 import AL.Impl.Api
+import AL.Properties.C11
 import Std.Data.HashMap
 open AL AL.Impl AL.Gen
 
@@ -93,6 +94,11 @@ def step (st : DState) (line : String) : DState × String :=
     let r : R LineOut := if rc == "0" then (if bs.isEmpty then .ok .skip else .ok (.code bs)) else .error .fail
     ({ st with table := st.table.insert (opt.toNat!, unhex hex) r }, "ok")
   | ["Y", v] => ({ st with useTable := v != "0" }, "ok")
+  | ["P", hex] =>
+    -- C11: is the (single) line outside the three option-sensitive classes?  "-" = no encoder input
+    (st, match AL.Properties.C11.lineEncoderInput (unhex hex) with
+         | none => "-"
+         | some e => if AL.Properties.C11.optPlainB e then "1" else "0")
   | op :: idS :: args =>
     let id := idS.toNat!
     if id ≥ 16 then (st, "bad-id") else
